@@ -45,3 +45,20 @@ func init() {
 			{"clause/limit.go", "\tif limit.Limit != nil && *limit.Limit >= 0 {\n\t\tbuilder.WriteString(\"LIMIT \")\n\t\tbuilder.AddVar(builder, *limit.Limit)\n\t}", "\tif n := limit.Limit; n != nil && *n >= 0 {\n\t\tbuilder.WriteString(\"LIMIT \")\n\t\tbuilder.AddVar(builder, *n)\n\t}"}}},
 	)
 }
+
+func init() {
+	addMutants(
+		Mutant{Name: "n13-single-batch-comparison-flipped", Property: "*", Rule: "NEUTRAL", Edits: []Edit{{"finisher_api.go",
+			"if tx.SkipDefaultTransaction || reflectLen <= batchSize {", "if tx.SkipDefaultTransaction || batchSize >= reflectLen {"}}},
+		Mutant{Name: "n14-softdelete-unscoped-hoisted", Property: "*", Rule: "NEUTRAL", Edits: []Edit{{"soft_delete.go",
+			"\tif _, ok := stmt.Clauses[\"soft_delete_enabled\"]; !ok && !stmt.Statement.Unscoped {", "\tunscoped := stmt.Statement.Unscoped\n\tif _, ok := stmt.Clauses[\"soft_delete_enabled\"]; !ok && !unscoped {"}}},
+		Mutant{Name: "n15-query-error-hoisted", Property: "*", Rule: "NEUTRAL", Edits: []Edit{{"callbacks/query.go",
+			"func Query(db *gorm.DB) {\n\tif db.Error == nil {\n\t\tBuildQuerySQL(db)\n\n\t\tif !db.DryRun && db.Error == nil {", "func Query(db *gorm.DB) {\n\tif db.Error == nil {\n\t\tBuildQuerySQL(db)\n\n\t\tdryRun, failed := db.DryRun, db.Error\n\t\tif !dryRun && failed == nil {"}}},
+		Mutant{Name: "n16-delete-executor-early-return-on-dryrun", Property: "*", Rule: "NEUTRAL", Edits: []Edit{{"callbacks/delete.go",
+			"\t\tcheckMissingWhereConditions(db)\n\n\t\tif !db.DryRun && db.Error == nil {\n\t\t\tok, mode := hasReturning(db, supportReturning)\n\t\t\tif !ok {", "\t\tcheckMissingWhereConditions(db)\n\n\t\tif db.DryRun || db.Error != nil {\n\t\t\treturn\n\t\t}\n\t\t{\n\t\t\tok, mode := hasReturning(db, supportReturning)\n\t\t\tif !ok {"}}},
+		Mutant{Name: "n17-where-build-copy-via-append", Property: "*", Rule: "NEUTRAL", Edits: []Edit{{"clause/where.go",
+			"\t\t\t\texprs := make([]Expression, len(where.Exprs))\n\t\t\t\tcopy(exprs, where.Exprs)\n\t\t\t\texprs[0], exprs[idx] = exprs[idx], exprs[0]", "\t\t\t\texprs := append(make([]Expression, 0, len(where.Exprs)), where.Exprs...)\n\t\t\t\texprs[0], exprs[idx] = exprs[idx], exprs[0]"}}},
+		Mutant{Name: "n18-clone-copies-clauses-with-index-loop", Property: "*", Rule: "NEUTRAL", Edits: []Edit{{"statement.go",
+			"\tfor k, c := range stmt.Clauses {\n\t\tnewStmt.Clauses[k] = c\n\t}", "\tfor name, cl := range stmt.Clauses {\n\t\tnewStmt.Clauses[name] = cl\n\t}"}}},
+	)
+}
